@@ -3,7 +3,7 @@
    doc_bound = the documented zero-based meaning of a sub-volume argument
    (None = outside the documented range), see C03_Proofs.v. *)
 From Coq Require Import String ZArith List Bool QArith.
-From HD Require Import Base.Val Base.PySlice C03_Model C03_Proofs C03_Proofs_Geom.
+From HD Require Import Base.Val Base.PySlice C03_Model C03_Proofs C03_Proofs_Geom C03_Proofs_Stack.
 From HD Require Base.Lin3.
 Import ListNotations.
 Open Scope Z_scope.
@@ -105,9 +105,10 @@ Print Assumptions C03_plane_index.
 (* voxel_fixed, stated on the building blocks of stacked_full (geometry rebuilt
    from the recorded attributes with plane j as origin); the list plumbing that
    selects j = the plane of minimal distance is tied by correspondence only.
-   FULL statement (not proved): for st = seg_from_volume ..., stacked_full true st
-   = Ok (G, n0, idx) -> every stored plane i with index k satisfies
-   physZ G k r c =v= physZ A i r c. *)
+   FULL statement: for st = seg_from_volume ..., stacked_full true st
+   = Ok (G, n0, idx) and every stored plane i with index k satisfies
+   physZ G k r c =v= physZ A i r c - now proved as C03_volume_stacked /
+   C03_volume_roundtrip below; this building block (any origin plane j) is kept. *)
 Theorem C03_voxel_fixed_partial : forall (pos d0 d1 d2 : v3) (s0 s1 s2 : Q) (sg : Z),
   (sg = 1 \/ sg = -1)%Z ->
   vdot d1 d1 == 1 -> vdot d2 d2 == 1 -> vdot d1 d2 == 0 ->
@@ -260,3 +261,177 @@ Example C03_placed_example :
   length (tile_frames (V3 10 20 (1 # 4)) rc cc (1#2) (1#4) 3 3 2 2 [[0;0;0];[0;0;0];[0;0;0]]%Z true) = 4%nat.
 Proof. vm_compute. repeat split; reflexivity. Qed.
 Print Assumptions C03_placed_example.
+
+(* ======================================================================= *)
+(* END TO END (C03_Proofs_Stack.v): the list plumbing of the read-back       *)
+(* instantiates the building blocks above                                   *)
+(* ======================================================================= *)
+Open Scope Q_scope.
+(* planes on a line p0 + m sp n (distinct integers m, ANY order, ANY subset):
+   stacked_full accepts, the origin is the plane of minimal m, plane m gets
+   volume index m - min, the number of slices is max - min + 1 *)
+Theorem C03_stack_on_line : forall (rowcos colcos p0 : v3) (sp : Q),
+  vdot (normal rowcos colcos) (normal rowcos colcos) == 1 -> 0 < sp ->
+  forall (st : stored) (ms : list Z),
+  st_rowcos st = rowcos -> st_colcos st = colcos -> st_sbs st = Some sp ->
+  Forall2 (on_line (normal rowcos colcos) p0 sp) (map fst (st_planes st)) ms -> NoDup ms -> ms <> [] ->
+  exists origin mmin n0,
+    In mmin ms /\ (forall m, In m ms -> (0 <= m - mmin < n0)%Z) /\ In (mmin + n0 - 1)%Z ms /\
+    In origin (map fst (st_planes st)) /\ on_line (normal rowcos colcos) p0 sp origin mmin /\
+    stacked_full true st =
+    Ok (attr_aff origin rowcos colcos (st_spr st) (st_spc st) sp, n0, map (fun m => (m - mmin)%Z) ms).
+Proof. exact stacked_line. Qed.
+Print Assumptions C03_stack_on_line.
+
+(* voxel_fixed, FULL: the geometry that the segmentation of a volume reports
+   (any handedness, with or without omitted empty slices) exists, has the stored
+   planes at indices sg (i - j) inside [0, n0), the last index is attained, and
+   places every voxel where the input affine placed it *)
+Theorem C03_volume_stacked : forall (pos d0 d1 d2 : v3) (s0 s1 s2 : Q) (sg : Z),
+  (sg = 1 \/ sg = -1)%Z -> vdot d1 d1 == 1 -> vdot d2 d2 == 1 -> vdot d1 d2 == 0 ->
+  d0 =v= vscale (inject_Z sg) (vcross d1 d2) -> 0 < s0 ->
+  forall rows cols arr omit, arr <> [] ->
+  let st := seg_from_volume pos d0 d1 d2 s0 s1 s2 rows cols arr omit in
+  exists j n0,
+    In j (map fst (kept omit arr)) /\
+    (forall i, In i (map fst (kept omit arr)) -> (0 <= sg * (i - j) < n0)%Z) /\
+    (exists i, In i (map fst (kept omit arr)) /\ (sg * (i - j) = n0 - 1)%Z) /\
+    stacked_full true st =
+    Ok (attr_aff (physZ (vol_aff pos d0 d1 d2 s0 s1 s2) j 0 0) d2 d1 s1 s2 s0, n0,
+        map (fun ip => (sg * (fst ip - j))%Z) (kept omit arr)) /\
+    (forall i r c : Z,
+       physZ (attr_aff (physZ (vol_aff pos d0 d1 d2 s0 s1 s2) j 0 0) d2 d1 s1 s2 s0) (sg * (i - j)) r c
+       =v= physZ (vol_aff pos d0 d1 d2 s0 s1 s2) i r c).
+Proof. exact volume_stacked. Qed.
+Print Assumptions C03_volume_stacked.
+
+(* volume_roundtrip + omitted_slices, FULL, over seg_from_volume and get_volume():
+   get_volume() succeeds; output slice sg (i - j) holds exactly the pixels of input
+   slice i and every voxel of it lies where the input put it; input slices that
+   fall outside the returned range are all zero (they were omitted); every output
+   slice is the image of an input slice - so every non-zero input voxel keeps its
+   value and position and every other output voxel is 0 *)
+Theorem C03_volume_roundtrip : forall (pos d0 d1 d2 : v3) (s0 s1 s2 : Q) (sg : Z),
+  (sg = 1 \/ sg = -1)%Z -> vdot d1 d1 == 1 -> vdot d2 d2 == 1 -> vdot d1 d2 == 0 ->
+  d0 =v= vscale (inject_Z sg) (vcross d1 d2) -> 0 < s0 ->
+  forall rows cols arr omit,
+  arr <> [] -> (1 <= rows)%Z -> (1 <= cols)%Z -> Forall (plane_shape rows cols) arr ->
+  let st := seg_from_volume pos d0 d1 d2 s0 s1 s2 rows cols arr omit in
+  let S := Z.of_nat (length arr) in
+  exists j n0 G out,
+    (0 <= j < S)%Z /\ (1 <= n0)%Z /\
+    G = sub_aff (sub_aff (attr_aff (physZ (vol_aff pos d0 d1 d2 s0 s1 s2) j 0 0) d2 d1 s1 s2 s0) 0 0 0) 0 0 0 /\
+    (forall ip, In ip (kept omit arr) -> (0 <= sg * (fst ip - j) < n0)%Z) /\
+    get_volume true st None None None None None None false = Ok ((n0, rows, cols), G, out) /\
+    length out = Z.to_nat n0 /\
+    (forall i r c : Z, physZ G (sg * (i - j)) r c =v= physZ (vol_aff pos d0 d1 d2 s0 s1 s2) i r c) /\
+    (forall i, (0 <= i < S)%Z -> (0 <= sg * (i - j) < n0)%Z ->
+               nth (Z.to_nat (sg * (i - j))) out [] = nth (Z.to_nat i) arr []) /\
+    (forall i, (0 <= i < S)%Z -> ~ (0 <= sg * (i - j) < n0)%Z ->
+               nth (Z.to_nat i) arr [] = zeros_plane rows cols) /\
+    (forall k, (0 <= k < n0)%Z -> exists i, (0 <= i < S)%Z /\ k = (sg * (i - j))%Z).
+Proof. exact volume_roundtrip. Qed.
+Print Assumptions C03_volume_roundtrip.
+
+(* the property sentence itself: "same array and affine when the input stacks its
+   planes right-handedly, the mirror image along the stacking axis otherwise" *)
+Theorem C03_volume_roundtrip_rh : forall pos d0 d1 d2 s0 s1 s2 rows cols arr,
+  vdot d1 d1 == 1 -> vdot d2 d2 == 1 -> vdot d1 d2 == 0 -> d0 =v= vcross d1 d2 -> 0 < s0 ->
+  arr <> [] -> (1 <= rows)%Z -> (1 <= cols)%Z -> Forall (plane_shape rows cols) arr ->
+  exists G,
+    get_volume true (seg_from_volume pos d0 d1 d2 s0 s1 s2 rows cols arr false)
+               None None None None None None false
+    = Ok ((Z.of_nat (length arr), rows, cols), G, arr) /\
+    aeq G (vol_aff pos d0 d1 d2 s0 s1 s2).
+Proof. exact volume_roundtrip_rh. Qed.
+Print Assumptions C03_volume_roundtrip_rh.
+
+Theorem C03_volume_roundtrip_lh : forall pos d0 d1 d2 s0 s1 s2 rows cols arr,
+  vdot d1 d1 == 1 -> vdot d2 d2 == 1 -> vdot d1 d2 == 0 -> d0 =v= vscale (-1) (vcross d1 d2) -> 0 < s0 ->
+  arr <> [] -> (1 <= rows)%Z -> (1 <= cols)%Z -> Forall (plane_shape rows cols) arr ->
+  let A := vol_aff pos d0 d1 d2 s0 s1 s2 in
+  let S := Z.of_nat (length arr) in
+  exists G,
+    get_volume true (seg_from_volume pos d0 d1 d2 s0 s1 s2 rows cols arr false)
+               None None None None None None false
+    = Ok ((S, rows, cols), G, rev arr) /\
+    aeq G (Aff (vscale (-1) (a0 A)) (a1 A) (a2 A) (physZ A (S - 1) 0 0)).
+Proof. exact volume_roundtrip_lh. Qed.
+Print Assumptions C03_volume_roundtrip_lh.
+
+(* sub-volume requests on such a segmentation: voxel (i, r, c) of ANY accepted
+   request lies where the input put voxel (j + sg (f0 + i), f1 + r, f2 + c), with
+   (f0, f1, f2) the first voxel of the standardised region *)
+Theorem C03_volume_subvolume_placed :
+  forall pos d0 d1 d2 s0 s1 s2 sg rows cols arr omit ss se rs re cs ce ai sh A' out,
+  (sg = 1 \/ sg = -1)%Z -> vdot d1 d1 == 1 -> vdot d2 d2 == 1 -> vdot d1 d2 == 0 ->
+  d0 =v= vscale (inject_Z sg) (vcross d1 d2) -> 0 < s0 -> arr <> [] ->
+  get_volume true (seg_from_volume pos d0 d1 d2 s0 s1 s2 rows cols arr omit) ss se rs re cs ce ai
+  = Ok (sh, A', out) ->
+  exists j n0 r0 r1 c0 c1 s e f0 z0 f1 z1 f2 z2,
+    In j (map fst (kept omit arr)) /\
+    std_rc rs re cs ce rows cols ai true = Ok (r0, r1, c0, c1) /\ std_slice ss se n0 ai = Ok (s, e) /\
+    slice_first_size (Some s) (Some e) n0 = Some (f0, z0) /\
+    slice_first_size (Some r0) (Some r1) rows = Some (f1, z1) /\
+    slice_first_size (Some c0) (Some c1) cols = Some (f2, z2) /\
+    sh = (z0, z1, z2) /\
+    forall i r c : Z,
+      physZ A' i r c =v= physZ (vol_aff pos d0 d1 d2 s0 s1 s2) (j + sg * (f0 + i)) (f1 + r) (f2 + c).
+Proof. exact volume_subvolume_placed. Qed.
+Print Assumptions C03_volume_subvolume_placed.
+
+(* aligned source stack with a recorded slice spacing, planes at p0 + m sbs n for
+   distinct integers m in ANY order, any subset stored (omitted empty slices) *)
+Theorem C03_sources_stacked : forall (p0 rowcos colcos : v3) (spr spc sbs : Q) rows cols ms arr omit,
+  vdot rowcos rowcos == 1 -> vdot colcos colcos == 1 -> vdot rowcos colcos == 0 -> 0 < sbs ->
+  NoDup ms -> length ms = length arr -> arr <> [] ->
+  let n := normal rowcos colcos in
+  let plane m := vadd p0 (vscale (inject_Z m * sbs) n) in
+  let st := seg_from_sources (map plane ms) rowcos colcos spr spc (Some sbs) rows cols arr omit in
+  let K := keep omit (combine ms arr) in
+  exists mmin n0,
+    In mmin (map fst K) /\
+    (forall m, In m (map fst K) -> (0 <= m - mmin < n0)%Z) /\ In (mmin + n0 - 1)%Z (map fst K) /\
+    stacked_full true st =
+    Ok (attr_aff (plane mmin) rowcos colcos spr spc sbs, n0, map (fun mp => (fst mp - mmin)%Z) K) /\
+    (forall m r c : Z,
+       physZ (attr_aff (plane mmin) rowcos colcos spr spc sbs) (m - mmin) r c =v=
+       vadd (vadd (plane m) (vscale (inject_Z r * spr) colcos)) (vscale (inject_Z c * spc) rowcos)).
+Proof. exact sources_stacked. Qed.
+Print Assumptions C03_sources_stacked.
+
+(* tiled images: self-consistency and sub-region placement of get_volume *)
+Theorem C03_get_volume_tiled_placed : forall G R C M ss se rs re cs ce ai sh A' arr,
+  get_volume_tiled G R C M ss se rs re cs ce ai = Ok (sh, A', arr) ->
+  exists r0 r1 c0 c1 s e,
+    std_rc rs re cs ce R C ai true = Ok (r0, r1, c0, c1) /\ std_slice ss se 1 ai = Ok (s, e) /\
+    (0 <= r0 < r1)%Z /\ (0 <= c0 < c1)%Z /\ (r0 < R)%Z /\ (c0 < C)%Z /\
+    sh = (1, r1 - r0, c1 - c0)%Z /\ A' = sub_aff G 0 r0 c0 /\
+    arr = [map (cut c0 (c1 - c0)) (cut r0 (r1 - r0) M)] /\
+    (forall i j : Z, physZ A' 0 i j =v= physZ G 0 (r0 + i) (c0 + j)).
+Proof. exact get_volume_tiled_inv. Qed.
+Print Assumptions C03_get_volume_tiled_placed.
+
+(* non-vacuity of the end-to-end theorems: the oblique LEFT-handed volume ex_st
+   above (interior slice omitted) meets every hypothesis of C03_volume_roundtrip
+   and comes back mirrored with the omitted slice as zeros; a shuffled source
+   stack with a gap is accepted by stacked_full; a tiled request is accepted *)
+Example C03_roundtrip_example :
+  Forall (plane_shape 2 2) ex_arr /\
+  map fst (kept true ex_arr) = [0; 2]%Z /\
+  (exists G, get_volume true ex_st None None None None None None false
+             = Ok ((3, 2, 2)%Z, G, [[[2;0];[0;1]]; [[0;0];[0;0]]; [[0;1];[0;0]]]%Z)) /\
+  (let rc := V3 1 0 0 in let cc := V3 0 1 0 in
+   let plane m := vadd (V3 1 2 3) (vscale (inject_Z m * (5 # 2)) (normal rc cc)) in
+   exists G, stacked_full true (seg_from_sources (map plane [4; 0; 3]%Z) rc cc (1 # 2) (1 # 4) (Some (5 # 2)) 1 2
+                                                  [[[1;0]]; [[0;1]]; [[0;0]]]%Z true)
+             = Ok (G, 5%Z, [4; 0]%Z)) /\
+  (exists A', get_volume_tiled (tiled_geometry (V3 10 20 0) (V3 0 (-1) 0) (V3 (-1) 0 0) (1 # 2) (1 # 4) None)
+                               3 3 [[1;0;0];[0;0;0];[0;0;1]]%Z None None (Some 2%Z) None None (Some (-1)%Z) false
+              = Ok ((1, 2, 2)%Z, A', [[[0;0];[0;0]]]%Z)).
+Proof.
+  split; [repeat constructor|]. split; [reflexivity|].
+  split; [eexists; vm_compute; reflexivity|]. split; [eexists; vm_compute; reflexivity|].
+  eexists; vm_compute; reflexivity.
+Qed.
+Print Assumptions C03_roundtrip_example.
